@@ -90,7 +90,7 @@ theorem path_spec (g : Graph) (wf : WF g) (s : Nat) (chain : List Nat) (hc : Anc
     resolveModulePart g s (id :: rest) = pathSpec g chain id rest := by
   simp only [resolveModulePart]
   unfold supers
-  simp only [hid, ↓reduceIte]
+  simp only [hid, ↓reduceIte, Bool.not_false]
   exact segments_true_eq wf hc id rest
 
 /-- A name the rules do not reach is an error — first segment … -/
@@ -110,18 +110,26 @@ theorem unreachable_member_is_error (g : Graph) (d : Decl) (id i : Name) (rest :
   simp [hs, hi, h]
 
 /-- **T2 (super).** `n + 1` leading `super`s, written in any scope whose
-    innermost enclosing module scope is `m`, continue the resolution in the
-    `(n+1)`-th module above `m` — or are the error "too many leading `super`"
-    when the module tree is not that deep. -/
+    innermost enclosing module scope is `m`, lead to the `(n+1)`-th module
+    above `m` — or are the error "too many leading `super`" when the module tree
+    is not that deep; what follows is looked up among the *direct members* of
+    that module (its declarations — not its imports, not the global scope), like
+    every later segment. -/
 theorem super_spec (g : Graph) (wf : WF g) (mok : ModulesOk g) (n : Nat) (s : Nat)
     (chain : List Nat) (m : Nat) (name : RName) (pm : Option Nat) (x : Name) (rest : List Name)
     (hc : Ancestors g s chain) (he : enclosingModule g chain = some (m, name, pm)) (hx : x ≠ SUPER) :
     resolveModulePart g s (SUPER :: (List.replicate n SUPER ++ x :: rest)) =
       match nthUp g (n + 1) m with
       | none => .err .tooManySuper
-      | some p => segments g p x rest true := by
+      | some p =>
+        match g.decl ⟨p, x⟩ with
+        | none => .err .notDefined
+        | some d => walkMembers g d x rest := by
   simp only [resolveModulePart]
-  exact super_n wf mok n s chain m name pm x rest hc he hx
+  rw [super_n wf mok n s chain m name pm x rest hc he hx false]
+  cases nthUp g (n + 1) m with
+  | none => rfl
+  | some p => simp only [segments_false_eq g rest p x, hx, ↓reduceIte]; rfl
 
 -- `aa.ff` from a function of `pkg`: first segment found in `pkg`, second among `pkg.aa`'s members
 example : resolveModulePart witnessGraph 5 [3, 6] = pathSpec witnessGraph [5, 1, 0] 3 [6] :=
@@ -136,7 +144,10 @@ example : resolveModulePart witnessGraph 5 [7] = .err .notDefined :=
 example : resolveModulePart witnessGraph 4 [SUPER, SUPER, 3, 6] =
     (match nthUp witnessGraph 2 4 with
       | none => .err .tooManySuper
-      | some p => segments witnessGraph p 3 [6] true) :=
+      | some p =>
+        match witnessGraph.decl ⟨p, 3⟩ with
+        | none => .err .notDefined
+        | some d => walkMembers witnessGraph d 3 [6]) :=
   super_spec witnessGraph witness_inv.wf witness_inv.mok 1 4 [4, 0] 4 ⟨3, 3⟩ (some 3) 3 [6]
     witness_chain4 (by decide) (by decide)
 example : (match resolveModulePart witnessGraph 4 [SUPER, SUPER, 3, 6] with
